@@ -31,7 +31,7 @@ class SourceBase:
         self.pulls = 0
         self.susp = spec.get("susp", 0)
         self.csusp = spec.get("csusp", False)
-        self.eqsrc = bool(spec.get("eqsrc"))
+        self.eqsrc = spec.get("eqsrc") or False  # False | True | "unhashable"
         self.falsy = bool(spec.get("falsy"))  # a source object that is falsy although it has items (len() == backlog)
         fault = spec.get("fault")
         self.fault_at = fault["at"] if fault else None
@@ -70,6 +70,9 @@ class SourceBase:
         return self is other
 
     def __hash__(self):
+        if self.eqsrc == "unhashable":
+            # __eq__ without __hash__ (every plain @dataclass): the source cannot go into a set or a dict
+            raise TypeError(f"unhashable type: '{type(self).__name__}'")
         return 0 if self.eqsrc else id(self) >> 4
 
     def __bool__(self):
